@@ -176,8 +176,9 @@ class deal_board:
     raises = {REFUSAL: None}
 
     def requires(s):
+        # (shape bound: a board is owed at most three cards at a time)
         return (basic(s) and s.street_index is not None and 0 <= s.street_index < len(s.streets)
-                and all(c >= 0 for c in s.board_dealing_counts))
+                and all(0 <= c <= 3 for c in s.board_dealing_counts))
 
     def target_board(old):
         pending = [c for c in old.board_dealing_counts if c != 0]
@@ -199,9 +200,10 @@ class deal_board:
     def at_update_cards_land_on_their_rows(old, s, op):
         base = deal_board.base_row(old)
         m = len(op.cards)
-        return all(tuple(s.board_cards[p]) == (tuple(old.board_cards[p]) if p < len(old.board_cards) else ())
-                   + ((op.cards[p - base],) if base <= p < base + m else ())
-                   for p in range(len(s.board_cards)))
+        # (stated per possible value of the first position, so that every index is a constant for the solver)
+        return any(base == b0 and all(
+            tuple(s.board_cards[p]) == (tuple(old.board_cards[p]) if p < len(old.board_cards) else ())
+            + ((op.cards[p - b0],) if b0 <= p < b0 + m else ()) for p in range(len(s.board_cards))) for b0 in range(8))
 
     @P('C14', 'rows exist exactly up to the last position dealt so far')
     def at_update_row_count(old, s, op):
